@@ -5,18 +5,25 @@
 //	<tree>: comma-separated f:<path> (regular file) / d:<path> (directory), "-" = empty tree
 //	<pattern>: the dependency string of the only task of the spokfile
 //
-// observation:  OBS <e…> ; OBS2 <e…> ; OBSB <e…> ; SEQ <e…>|na ; SET <e…>
+// observation:  OBS <e…> ; OBS2 <e…> ; OBSB <e…> ; SEQ <e…>|na ; SET <e…> ; LEG <e…>|na|err
 //
 // The tree is built for real in a fresh temp directory; a spokfile text with one task whose dependency is
 // the pattern is parsed (parser.New), turned into a SpokFile (file.New) and sf.ExpandGlobs() is called —
 // the very code path of SpokFile.Run — and sf.Globs[pattern] is read, made relative to the root, each path
 // tagged with its kind (Lstat).  OBS2 is the same on a second, fresh SpokFile; OBSB is the first SpokFile
 // after a second ExpandGlobs() (the cached path through hasGlob).
+//
+// LEG validates the part of the model that spok's present callback never reaches: doublestar.GlobWalk is
+// called directly on the same tree with a callback that answers SkipDir for every hidden path (the pinned
+// `ignoreHiddenGlobFn`), and the recorded paths are compared with the walk model run with that callback
+// (`Glob.legacyCallback`) — the three SkipDir behaviours of globDirWalk / globDoubleStarWalk. `na` for
+// patterns with `{` (globAltsWalk is not mirrored).
 package main
 
 import (
 	"bufio"
 	"fmt"
+	"io/fs"
 	"math/rand"
 	"os"
 	"path/filepath"
@@ -26,6 +33,7 @@ import (
 
 	"github.com/FollowTheProcess/spok/file"
 	"github.com/FollowTheProcess/spok/parser"
+	"github.com/bmatcuk/doublestar/v4"
 
 	"verif/harness/sup"
 )
@@ -146,7 +154,7 @@ func globWork(c string) string {
 		return "OBS " + bad
 	}
 	if _, isGlob := sf1.Globs[pattern]; !isGlob {
-		return "OBS notglob ; OBS2 notglob ; OBSB notglob ; SEQ notglob ; SET notglob"
+		return "OBS notglob ; OBS2 notglob ; OBSB notglob ; SEQ notglob ; SET notglob ; LEG notglob"
 	}
 	if err := sf1.ExpandGlobs(); err != nil {
 		return "OBS EXPAND-ERR"
@@ -166,8 +174,11 @@ func globWork(c string) string {
 	obs2 := tag(root, sf2.Globs[pattern])
 
 	seq := showList(obs)
+	leg := "na"
 	if strings.Contains(pattern, "{") {
 		seq = "na"
+	} else {
+		leg = legacyWalk(root, pattern)
 	}
 	set := append([]string{}, obs...)
 	sort.Strings(set)
@@ -177,7 +188,27 @@ func globWork(c string) string {
 			ded = append(ded, s)
 		}
 	}
-	return fmt.Sprintf("OBS %s ; OBS2 %s ; OBSB %s ; SEQ %s ; SET %s", showList(obs), showList(obs2), showList(obsB), seq, showList(ded))
+	return fmt.Sprintf("OBS %s ; OBS2 %s ; OBSB %s ; SEQ %s ; SET %s ; LEG %s", showList(obs), showList(obs2), showList(obsB), seq, showList(ded), leg)
+}
+
+// legacyWalk: doublestar.GlobWalk with the pinned callback (SkipDir for a hidden path)
+func legacyWalk(root, pattern string) string {
+	var rec []string
+	err := doublestar.GlobWalk(os.DirFS(root), pattern, func(p string, d fs.DirEntry) error {
+		if strings.HasPrefix(p, ".") {
+			return filepath.SkipDir
+		}
+		k := "f:"
+		if d.IsDir() {
+			k = "d:"
+		}
+		rec = append(rec, k+p)
+		return nil
+	})
+	if err != nil {
+		return "err"
+	}
+	return showList(rec)
 }
 
 // ---------------------------------------------------------------------------------------------
